@@ -19,6 +19,33 @@ Specification: spec/SourceLine.tla
     source is rewritten (each physical line with a seed-chosen vector, each file with a file vector) and assembled
     like the test driver does; the p2bin image must equal the recorded tests/<t>/<t>.ori.   quick: 2 rewritten
     variants per test (402 programs), thorough: 10.
+(N) SourceLine_Nest + SourceLine.tla Part 4: COMPOUND PARAMETERS - the second field split.  Some statements carry
+    further white-space separated fields inside one comma-delimited parameter, which as.c SplitLine() hands over
+    untouched and the code generator splits again: MSP430X `rptc #5 addx.w r4,r7` / `rptz r6 ...` (codemsp.c
+    DecodeRPT), TMS320C6x `|| [b0] add.l1 a0,a1,a5` (ReiterateOpPart), uPD772x `op mov @a,b` (DecodeOP), SH-DSP
+    `dct ...` (DecodeDCT_DCF; no code in this tree, model only), Rabbit `altd inc iy` (codez80.c StripPref),
+    68HC11/HC12 `brclr $20 #$40 *` / `bset` / `movb` (Try2Split), uPD77230 `mov wr0,psw1 jnzrp target` (SplitArgs/
+    DiscardArgs) and the preprocessor's `#define NAME text` (asmmac.c).  Part 4 transcribes these secondary
+    splitters (asmsub.c FirstBlank = the EARLIER of the first blank and the first tab, KillPrefBlanks, first /
+    last isspace, QuotPos of blank and tab) and states, independently, what a compound parameter is (components
+    joined by gaps, a gap = any non-empty sequence of blanks and tabs; reading = maximal runs of non-space).
+    TLC checks for 20 concrete statements (every splitter, 1..2 gaps) and #define, every gap vector (each gap every sequence of
+    1..2 blanks/tabs, thorough 1..3: blank, tab, blank-tab, tab-blank, ...) and a set of top-level spellings:
+    GapsImmaterial (the statement finally assembled = the one of the single-blank spelling), PrefixTransparent
+    (= the statement the text behind the prefix is on a line of its own), CutsAtComponents (a cut never lands
+    inside a component or loses one), FirstBlankIsFirst, PreprocSplit.  TLC prints (a) every statement x gap
+    vector as a source line (quick 720, thorough 3920): assembled, the code must equal that of the single-blank
+    spelling; (b) the gap vectors and (c) the table of statement forms (code generator, mnemonics, which
+    parameters, how many gaps) for the corpus rewrite: in every golden source the gaps of such statements
+    (t_msp430x t_3206x t_7720 t_7725 t_77230 t_6812 t_r2000; #define in t_870c t_f2mc16) are re-spelled with a
+    seed-chosen gap vector on top of the line vector, verdict = .ori as before.  PAIR events of such lines are
+    validated with NestOK: both spellings re-split into the same statement and the mnemonic / parameter count the
+    code generator finally used (stmt hook) are the ones Resplit yields.  #define is not described in the manual:
+    a difference there is SPEC-DRIFT only.
+    Why added: the rewrites only varied the white space at the TOP-LEVEL field boundaries; a changed FirstBlank()
+    that takes the later of blank/tab (`rptc #5<TAB>addx.w r4,r7` rejected, `rptz r6<TAB>addx.w r4,r7` silently
+    without code) passed the golden tests and the check.  Not covered: white space inside expressions (`1 + 2`,
+    `2 dup (?)`), which the manual does not call a field boundary.
 (B) BodyCollect: the body collector of as.c (MacroStart: MACRO IRP IRPN IRPC REPT WHILE open, MacroEnd: ENDM ENDR
     close; the body ends at nesting -1), the precondition of the macro wrap (Wrappable: balanced for the collector
     and for IF/SWITCH, STRUCT/UNION, SECTION pairs) and the meaning of the constructs (Expand).  BodyCollect_MC:
@@ -50,7 +77,9 @@ Split/PAIR rejections are reported as SPEC-DRIFT (they localise a divergence; on
 be bugs of the transcription).
 
 Preconditions of the rewrites (where the manual does not promise immateriality, the line is left alone):
-continuation lines and `#` preprocessor lines are untouched; a line is only re-rendered if the position-keeping
+continuation lines are untouched, of `#` preprocessor lines only the two gaps of `#define NAME text` are re-spelled;
+white space inside a parameter is only touched for the statement forms SourceLine_Nest names, outside quotes and
+parentheses, and not in macro call arguments or while a body is recorded; a line is only re-rendered if the position-keeping
 splitter of vlib/srcline.py reproduces exactly the fields the real assembler logged for it; no case change inside
 quotes (as QuotPosCore tracks them), in macro/REPT/IRP bodies while they are recorded, in arguments of macro
 calls, IRP/IRPC, INCLUDE/BINCLUDE/READ (text substitution, file names); colon only after identifier-like column-1
@@ -76,6 +105,10 @@ Mutations of the real code tried on a scratch copy (selftest/C16-m*.py, selftest
      (nested IRPN's ENDM ends the enclosing body)                                     construct trees with IRPN inside)
   -- strutil.c: CR in front of LF never stripped                   ctest passes       same class as m5 (CR hides the
      backslash of a continuation); caught since continuation lines take part in the CR-LF rewrite.
+  m7 asmsub.c FirstBlank(): later of first blank / first tab      ctest passes       caught (205 violations: t_msp430x
+     (second split of RPTC/RPTZ, C6x, uPD772x OP, #define)                           t_3206x t_7720 t_7725 + generated lines)
+  m8 code6812.c Try2Split(): blank only (no tab)                  ctest passes       caught (t_6812 + generated lines)
+  m9 codez80.c StripPref(): mnemonic behind ALTD ends at blank    ctest passes       caught (t_r2000 + generated lines)
 ./check C16 --selftest shows the trace binding (a changed field of a recorded split event is rejected).
 """
 import os
@@ -322,6 +355,8 @@ def main(tier):
                         "the renderer (vlib/srcline.py) only rewrites lines whose fields it reproduces exactly as "
                         "the real assembler logged them; other lines are left in their original spelling",
                         "TLC explores the line model up to 2 parameters per line over the stated token alphabet",
+                        "white space inside a parameter is a field boundary only for the statement forms listed in "
+                        "SourceLine_Nest.tla (Forms); white space inside expressions is left as written",
                         "hooks: %s" % ("split/stmt events" if bld.hooks else "unavailable (black-box replay only)")]
     # (M)+(G) compound operand fields: runs beside the line model (its output is needed for the corpus rewrite)
     import concurrent.futures as cf
@@ -572,7 +607,9 @@ def main(tier):
     return rep.finish(
         rule="programs = every golden source x N rewritten variants (N=2 quick, 10 thorough); per physical line a "
              "seed-chosen vector from the 22680 rendering choices TLC enumerates for SourceLine.tla's Render, per file "
-             "one of the 18 file vectors (wrap none/include/macro x blank lines x LF/CRLF/mixed); distinct = "
+             "one of the 18 file vectors (wrap none/include/macro x blank lines x LF/CRLF/mixed), per statement with a "
+             "compound parameter one of the gap vectors of SourceLine_Nest; plus every generated compound statement x "
+             "gap vector (code = code of the single-blank spelling); distinct = "
              "(test, file vector, number of rewritten lines); non-trivial = at least one line or the file was changed",
         exhaustive=False)
 
